@@ -469,7 +469,7 @@ fn build_enum(
             impl #name_ident {
                 #visibility unsafe fn get() -> Self {
                     unsafe {
-                        *(#address as *const Self)
+                        ::std::ptr::read(#address as *const Self)
                     }
                 }
             }
